@@ -1,3 +1,4 @@
+import ZnVerif.Properties.Bridges
 import ZnVerif.Properties.C12
 open ZnVerif.Properties.C12
 #print axioms hm_inv_from
@@ -25,3 +26,31 @@ open ZnVerif.Properties.C12
 #print axioms new_key_write_inserts
 #print axioms reinsert_appends
 #print axioms overwrite_keeps_place
+
+-- bridge: the evaluator model's embedded scope / containers are the finer models (Properties/Bridges.lean)
+#print axioms ZnVerif.Properties.Bridges.list_bridge_prepend_append
+#print axioms ZnVerif.Properties.Bridges.list_bridge_insert
+#print axioms ZnVerif.Properties.Bridges.list_bridge_store_ok
+#print axioms ZnVerif.Properties.Bridges.list_bridge_merge
+#print axioms ZnVerif.Properties.Bridges.list_bridge_shift
+#print axioms ZnVerif.Properties.Bridges.list_bridge_contains_find
+#print axioms ZnVerif.Properties.Bridges.list_bridge_contains_find_ok
+#print axioms ZnVerif.Properties.Bridges.list_bridge_swap
+#print axioms ZnVerif.Properties.Bridges.list_bridge_join
+#print axioms ZnVerif.Properties.Bridges.list_bridge_getters
+#print axioms ZnVerif.Properties.Bridges.list_bridge_setters
+#print axioms ZnVerif.Properties.Bridges.list_bridge_iv
+#print axioms ZnVerif.Properties.Bridges.list_bridge_errors
+#print axioms ZnVerif.Properties.Bridges.interp_list_refines_seq
+#print axioms ZnVerif.Properties.Bridges.dict_bridge_build
+#print axioms ZnVerif.Properties.Bridges.dict_bridge_erase
+#print axioms ZnVerif.Properties.Bridges.dict_bridge_get
+#print axioms ZnVerif.Properties.Bridges.dict_bridge_set
+#print axioms ZnVerif.Properties.Bridges.dict_bridge_delete
+#print axioms ZnVerif.Properties.Bridges.dict_bridge_getters
+#print axioms ZnVerif.Properties.Bridges.dict_bridge_iv
+#print axioms ZnVerif.Properties.Bridges.dict_bridge_errors
+#print axioms ZnVerif.Properties.Bridges.interp_hm_inv_preserved
+#print axioms ZnVerif.Properties.Bridges.interp_dict_refines_ordered_map
+#print axioms ZnVerif.Properties.Bridges.dict_core_is_evaluator
+#print axioms ZnVerif.Properties.Bridges.interp_dict_history
